@@ -49,6 +49,8 @@ func vnLowerEq(a, b []byte) bool {
 	return true
 }
 
+var vnParsePrefixes = []string{"--x:", "a{--x:", "a{b:", "a{b:c(", "@media ", "@media a{", "@font-face{", "a:not(", "a{*", "a[b", "@x ", "a{b:c;--y:[", "<!--", "a{@media{", "@supports(a:b){c{"}
+
 const (
 	vnP01 = 1
 	vnP08 = 2
@@ -64,6 +66,12 @@ func vnParseW(mode int) {
 			c := b[i]
 			vAssume(c == 'a' || c == '@' || c == '{' || c == '}' || c == '(' || c == ')' || c == '[' || c == ']' || c == ';' || c == ':' || c == ',' || c == '*' || c == '-' || c == '/' || c == ' ' || c == '"')
 		}
+	}
+	if vParam("PRE", 0) != 0 {
+		// sketches: a concrete construct prefix followed by the symbolic bytes
+		pre := vnParsePrefixes[vRange("pre", 0, len(vnParsePrefixes)-1)]
+		b = append([]byte(pre), b...)
+		n = len(b)
 	}
 	inline := vRange("inline", 0, 1) == 1
 	orig := append([]byte(nil), b...)
@@ -177,3 +185,86 @@ func vnParseW(mode int) {
 
 func VerifParseW01() { vnParseW(vnP01) }
 func VerifParseW08() { vnParseW(vnP08) }
+
+var vnSelSketches = [][]string{
+	{"a", ":not(", "[b]", ")", "c", "{x:y}"},
+	{"a", "[b=c]", "d", ">", "e", "{x:y}"},
+	{"ul", ":is(", "li", ",", "p", ")", "b", "{x:y}"},
+	{"a", "+", "b", "~", "c", "d", "{x:y}"},
+	{".a", "#b", "::c", "d", "{x:y}"},
+}
+
+// VerifSelectorWS: selector sketches with a solver-chosen separator (nothing, space, comment,
+// space+comment) at every token boundary: Values() of the BeginRuleset unit equals the source's
+// component tokens, whitespace kept as one token only between two tokens that are not
+// punctuation and not inside an attribute selector.
+func VerifSelectorWS() {
+	atoms := vnSelSketches[vRange("sketch", 0, len(vnSelSketches)-1)]
+	seps := make([]int, len(atoms))
+	var src []byte
+	for i, a := range atoms {
+		if i > 0 && i < len(atoms)-1 || i == len(atoms)-1 {
+			seps[i] = vRange("sep", 0, 3)
+			switch seps[i] {
+			case 1: // any single CSS whitespace byte
+				ws := vByte("ws")
+				vAssume(ws == ' ' || ws == '\t' || ws == '\n' || ws == '\r' || ws == '\f')
+				src = append(src, ws)
+			case 2:
+				src = append(src, "/**/"...)
+			case 3:
+				src = append(src, " /**/ "...)
+			}
+		}
+		src = append(src, a...)
+	}
+	// reference: lex the source; keep non-whitespace/comment tokens; a single space where
+	// whitespace separated two kept tokens, neither a combinator/comma, outside [...]
+	toks := vnLexAll(src)
+	type exp struct {
+		tt   TokenType
+		data []byte
+	}
+	var want []exp
+	sawWS := false
+	inAttr := false
+	for _, t := range toks {
+		d := src[t.start:t.end]
+		if t.tt == LeftBraceToken {
+			break
+		}
+		if t.tt == WhitespaceToken {
+			sawWS = true
+			continue
+		}
+		if t.tt == CommentToken {
+			continue
+		}
+		punct := len(d) == 1 && (d[0] == ',' || d[0] == '>' || d[0] == '+' || d[0] == '~')
+		if sawWS && len(want) > 0 && !punct && !inAttr {
+			prev := want[len(want)-1].data
+			prevPunct := len(prev) == 1 && (prev[0] == ',' || prev[0] == '>' || prev[0] == '+' || prev[0] == '~')
+			if !prevPunct {
+				want = append(want, exp{WhitespaceToken, []byte(" ")})
+			}
+		}
+		sawWS = false
+		if t.tt == LeftBracketToken {
+			inAttr = true
+		} else if t.tt == RightBracketToken {
+			inAttr = false
+		}
+		want = append(want, exp{t.tt, d})
+	}
+	p := NewParser(parse.NewInputBytes(append(make([]byte, 0, len(src)+1), src...)), false)
+	gt, _, _ := p.Next()
+	vAssert(gt == BeginRulesetGrammar, "selector-not-a-ruleset")
+	vals := p.Values()
+	vAssert(len(vals) == len(want), "selector-values-count")
+	for i := range want {
+		if i < len(vals) {
+			vAssert(vals[i].TokenType == want[i].tt && string(vals[i].Data) == string(want[i].data), "selector-values-differ")
+		}
+	}
+	vReach("selector")
+}
